@@ -1,6 +1,6 @@
 (* Property C19 — node agent over-subscription stays within bounds and evicts
    only offline pods.  Property theorems only; each is closed by [exact] of a
-   lemma proved in C19/Lemmas.v or C19/EvictLemmas.v and followed by its
+   lemma proved in C19/Lemmas.v, C19/EvictLemmas.v or C19/ReporterLemmas.v and followed by its
    assumptions.
 
    Stated input range (int64 overflow is excluded by it, and the model carries
@@ -184,17 +184,36 @@ Theorem C19_cleanup_terminates_and_evicts_only_offline : forall ne pods fl,
 Proof. exact cleanup_ok. Qed.
 Print Assumptions C19_cleanup_terminates_and_evicts_only_offline.
 
-(* what pass_sorted says, spelled out *)
-Theorem C19_pass_sorted_meaning : forall res pods0 calls,
-  pass_sorted res pods0 calls <->
-  (exists tried, map p_id tried = map fst calls /\
-                 StronglySorted (fun a b => req res b <= req res a) tried /\ incl tried pods0) /\
-  (length (filter (fun c => snd c) calls) <= 1)%nat /\
-  (forall pre c post, calls = pre ++ c :: post -> snd c = true -> post = []).
-Proof. exact (fun res pods0 calls => conj (fun H => H) (fun H => H)). Qed.
-Print Assumptions C19_pass_sorted_meaning.
+(* SECOND AUDIT N1: no larger eligible pod is skipped.  calls_strong res pods cs
+   (EvictLemmas.v) says: the pods behind the calls cs are, in order, a PREFIX
+   tried of a list tried ++ rest that is a permutation of the eligible pods of
+   the population pods, sorted by descending request of res, and rest = [] when
+   no call succeeded.  So the first call targets a maximal-request eligible pod
+   and every next call a maximal one among the pods not yet tried.
+   pass_strong res pods cs = if the extend resource is in use then calls_strong
+   else cs = [];  passes_strong judges every pass of every round on the
+   population THAT pass listed (the previous one minus the pods whose eviction
+   succeeded, remove_succ). *)
+Theorem C19_cleanup_no_larger_pod_skipped : forall ne pods fl,
+  match cleanup ne (pods, fl) with
+  | ClDone _ _ passes s => passes_strong pods passes /\ fst s = pods_after pods passes
+  | ClFuel => True
+  end.
+Proof. exact cleanup_strong. Qed.
+Print Assumptions C19_cleanup_no_larger_pod_skipped.
 
-(* largest request first along EVERY sequence of pressure events (audit W5) *)
+(* every event of every sequence of pressure events: the output at its position is
+   the handler's answer on the state reached by the earlier events, and its calls
+   are strong for the population the event sees *)
+Theorem C19_pressure_history_no_larger_pod_skipped : forall evs1 e evs2 pods fl,
+  processed e = true ->
+  let s1 := fst (hrun (pods, fl) evs1) in
+  exists o ids, nth_error (snd (hrun (pods, fl) (evs1 ++ e :: evs2))) (length evs1) = Some (o, ids) /\
+                o = snd (handle s1 e) /\ calls_strong (e_res e) (fst s1) (h_calls o).
+Proof. exact hrun_strong. Qed.
+Print Assumptions C19_pressure_history_no_larger_pod_skipped.
+
+(* weaker corollary kept from the first audit: the calls made along a sequence are in descending order *)
 Theorem C19_pressure_history_largest_first : forall evs pods0 pods fl, incl pods pods0 ->
   Forall2 (fun e (oa : hout * list Z) =>
              exists tried, map p_id tried = map fst (h_calls (fst oa)) /\
@@ -256,14 +275,30 @@ Theorem C19_law_cleanup_sound : forall pods passes after,
 Proof. exact law_cleanup_sound. Qed.
 Print Assumptions C19_law_cleanup_sound.
 
-Theorem C19_law_cleanup_sound_order : forall pods passes after,
-  nodupb (map p_id pods) = true -> law_cleanup pods passes after = true ->
-  Forall (fun p => StronglySorted (fun a b => b <= a) (map (call_req 1 pods) (fst p)) /\
-                   StronglySorted (fun a b => b <= a) (map (call_req 2 pods) (snd p)) /\
-                   (forall pre c post, fst p = pre ++ c :: post -> snd c = true -> post = []) /\
-                   (forall pre c post, snd p = pre ++ c :: post -> snd c = true -> post = [])) passes.
-Proof. exact law_cleanup_sound_order. Qed.
-Print Assumptions C19_law_cleanup_sound_order.
+Theorem C19_law_cleanup_sound_passes : forall pods passes after,
+  nodupb (map p_id pods) = true -> law_cleanup pods passes after = true -> passes_ok pods passes = true.
+Proof. exact law_cleanup_sound_passes. Qed.
+Print Assumptions C19_law_cleanup_sound_passes.
+
+(* what the boolean check of one pass means (passes_ok applies it to every pass on
+   the population that pass listed) *)
+Theorem C19_law_pass_ok_sound : forall res pods cs, pass_ok res pods cs = true ->
+  (forall c, In c cs -> exists p, In p pods /\ p_id p = fst c /\ preemptable p = true /\ critical p = false) /\
+  StronglySorted (fun a b => b <= a) (map (call_req res pods) cs) /\
+  (forall pre c post, cs = pre ++ c :: post -> snd c = true -> post = []) /\
+  (use_extend res pods = false -> cs = []) /\
+  (use_extend res pods = true -> forall p, In p pods -> eligible p = true -> ~ In (p_id p) (map fst cs) ->
+     succeeded cs <> [] /\ exists lastc, rev cs = lastc :: tl (rev cs) /\ req res p <= call_req res pods lastc).
+Proof. exact pass_ok_sound. Qed.
+Print Assumptions C19_law_pass_ok_sound.
+
+(* the no-skip conjunct of law_evict and of pass_ok *)
+Theorem C19_law_no_skip_sound : forall res pods calls p,
+  no_skip res pods calls = true -> In p pods -> eligible p = true -> ~ In (p_id p) (map fst calls) ->
+  succeeded calls <> [] /\
+  exists lastc, rev calls = lastc :: tl (rev calls) /\ req res p <= call_req res pods lastc.
+Proof. exact no_skip_sound. Qed.
+Print Assumptions C19_law_no_skip_sound.
 
 Theorem C19_law_event_current_sound : forall ratio acpu amem ev,
   0 <= ratio <= 100 -> 0 <= acpu <= max_alloc -> 0 <= amem <= max_alloc ->
@@ -342,8 +377,30 @@ Theorem C19_node_after_handled_report : forall pods Rmax Ac Am,
 Proof. exact pstep_report_close. Qed.
 Print Assumptions C19_node_after_handled_report.
 
-(* every 6th handled report is written whatever the threshold says: a stale
-   amount survives at most 5 consecutive handled reports *)
+(* SECOND AUDIT N2: after a handled report the node shows at most 10/9 of ratio% of
+   the node's CURRENT allocatable *)
+Theorem C19_node_within_current_allocatable_after_report : forall pods Rmax Ac Am,
+  0 <= Rmax <= 100 -> 0 <= Ac <= max_alloc -> 0 <= Am <= max_alloc ->
+  (forall policy psel, 0 <= guaranteed_cpu_request policy (pods_at pods psel) <= max_amount) ->
+  forall s, pinv Rmax Ac Am s ->
+  o_handled (snd (pstep pods s (PReport 0))) = true -> label_on (n_label (ps_n s)) = true ->
+  let n' := ps_n (fst (pstep pods s (PReport 0))) in
+  9 * fst (cur_of n') * 100 <= 10 * (n_acpu (ps_n s) * ps_ratio s) /\
+  9 * snd (cur_of n') * 100 <= 10 * (n_amem (ps_n s) * ps_ratio s).
+Proof. exact pstep_report_node_current. Qed.
+Print Assumptions C19_node_within_current_allocatable_after_report.
+
+(* a report on a node whose label is not "true"/"1" is ignored altogether (no
+   counter, no write): nothing bounds the staleness then either *)
+Theorem C19_report_ignored_when_label_off : forall r n ev fail,
+  fail <> 2 -> label_on (n_label n) = false -> rhandle r n ev fail = (r, n, 0).
+Proof. exact rhandle_label_off. Qed.
+Print Assumptions C19_report_ignored_when_label_off.
+
+(* the step whose counter r_times reaches a multiple of 6 is written whatever the
+   threshold says.  r_times counts every report that reached the patch decision on
+   an over-subscription node, INCLUDING those whose write then failed; so without
+   API failures a stale amount survives at most 5 consecutive handled reports *)
 Theorem C19_node_forced_resync : forall pods s,
   o_handled (snd (pstep pods s (PReport 0))) = true -> label_on (n_label (ps_n s)) = true ->
   (r_times (ps_r s) + 1) mod re_sync_period = 0 ->
@@ -520,10 +577,11 @@ Example C19_nonvacuous_pipeline :
       (snd (prun [] (pinit 60 n0)
              [PTypes 3 [1; 2]; PReporterCfg true true 0; PSample false false 1 0 0 0; PReport 0;
               PSample false false 1 50 50 0; PReport 0; PTypes 3 [1]; PReport 0;
+              PSetAlloc 500 500; PReport 0;     (* allocatable shrunk: the event is capped at 60% of 500 *)
               PReporterCfg false true 0])) =
     [(false, None, None); (false, None, None); (false, None, None); (true, Some 600, Some 600);
      (false, Some 600, Some 600); (true, Some 600, Some 600); (false, Some 600, Some 600);
-     (true, Some 580, Some 0); (false, None, None)].
+     (true, Some 580, Some 0); (false, Some 580, Some 0); (true, Some 300, Some 0); (false, None, None)].
 Proof.
   split.
   - apply pinv_init; cbn; try lia. unfold node_bounded; cbn; auto.
